@@ -49,6 +49,7 @@ def universe():
         "E2": Entry("x", "e2", [Field("abcdefgh", "{y, z}"), Field("ab", '"q"')], raw="@x{e2, ...}"),
         "E5": Entry("y", "e5", [Field("abcde", "{five}")], raw="@y{e5, abcde = {five}}"),  # len(key)+3 == 8
         "EU": Entry("z", "eu", [Field("straße", "{x}"), Field("İstanbul_ﬁ", "{y}"), Field("k", "{z}")], raw="@z{eu, ...}"),
+        "Ee": Entry("q", "ee", [Field("", "{x}")], raw="@q{ee, = {x}}"),  # the empty field key (the splitter yields it for ', = {x}'): length 0
         "S": String("s", "{v}", raw="@string{s = {v}}"),
         "P": Preamble('"pre"'),
         "IC": ImplicitComment("% free text"),
